@@ -5,7 +5,7 @@
    (fix_block_dirty: Policy block/unblock mark the committee cache dirty — finding F7; fix_gpv_drop:
    dropCandidateIfZero removes the cached gas-per-vote — finding F23); for the unrepaired settings the two
    counter-examples are at the end of Node/GovProofs.v. *)
-From NG Require Import Common.Tactics Tokens.Model Tokens.MapLemmas Tokens.Inv.
+From NG Require Import Common.Tactics Tokens.Model Tokens.MapLemmas Tokens.Inv Auth.PermStore Auth.PermStoreProofs.
 Open Scope Z_scope.
 
 (* the gas-per-block cache is an append-only slice: setting the value twice in one block leaves two entries with
@@ -48,6 +48,25 @@ Proof.
   destruct (N.eqb role r); [destruct recs; reflexivity|exact IH].
 Qed.
 
+(* the stored form of a contract state reads back as the state itself: Permission.FromStackItem inverts ToStackItem
+   (Auth/PermStoreProofs.v, perms_roundtrip) *)
+Lemma load_store c : load (store_of c) = c.
+Proof.
+  destruct c as [p i cn v ps gs sf]. unfold load, store_of.
+  cbn [ms_present ms_id ms_counter ms_version ms_perms ms_groups ms_safe mc_present mc_id mc_counter mc_version mc_perms mc_groups mc_safe].
+  rewrite perms_roundtrip. reflexivity.
+Qed.
+
+Lemma load_ms0 : load ms0 = mc0.
+Proof. apply load_store. Qed.
+
+Lemma aget_reinit_mg (m : amap mstored) h :
+  aget mc0 h (map (fun '(k, s) => (k, load s)) m) = load (aget ms0 h m).
+Proof.
+  induction m as [|[k s] m IH]; simpl; [symmetry; apply load_ms0|].
+  destruct (N.eqb h k); [reflexivity|exact IH].
+Qed.
+
 Section Gov.
 Variable cfg : config.
 
@@ -59,9 +78,10 @@ Record CohTx (st : state) : Prop := mkCT {
   ct_gpb : s_gpb (A st) = dedup (c_gpb (A st));
   ct_gpv : forall k v, aget None k (c_gpv (A st)) = Some v -> aget 0 k (s_gpv (A st)) = v;
   ct_dirty : votes_changed (A st) = false -> compute_committee cfg st = ne_committee (A st);
-  (* Designate: the cached role data is the newest stored record; Management: the cached contracts are the stored ones *)
+  (* Designate: the cached role data is the newest stored record; Management: the cached contract states are what
+     InitializeCache reads back from the stored (stack-item) form, field by field *)
   ct_ds : forall role, aget (0, []) role (ds_cache (X st)) = rec_head (aget [] role (ds_store (X st)));
-  ct_mg : forall h, aget mc0 h (mg_cache (X st)) = aget mc0 h (mg_store (X st))
+  ct_mg : forall h, aget mc0 h (mg_cache (X st)) = load (aget ms0 h (mg_store (X st)))
 }.
 
 (* coherence at a block boundary *)
@@ -114,7 +134,7 @@ Theorem coherent_obsX st role index a : Coh st -> obsX (reinit cfg st) role inde
 Proof.
   intros [[c1 c2 c3 c4 c5 c6 c7 c8] cm ce]. unfold obsX, designated, ds_latest, contract_of, whitelisted_fee.
   rewrite reinit_X, reinit_pcache. unfold reinit_ext; simpl.
-  rewrite aget_reinit_ds, <- (c7 role), (c8 (caddr a)), c3. reflexivity.
+  rewrite aget_reinit_ds, <- (c7 role), aget_reinit_mg, <- (c8 (caddr a)), c3. reflexivity.
 Qed.
 
 (* the look-ups over the incrementally extended history = over the history rebuilt from storage, for every index *)
